@@ -1307,6 +1307,18 @@ class SpecLib:
             M[("bytes", which)] = s_side_strip(which)
             M[("str", which)] = s_side_strip(which)
 
+        def s_case(which):
+            def f(ex, a, kw):
+                x = a[0]
+                if x.pyval is not None:
+                    return const_seq(x.kind, getattr(x.pyval, which)())
+                self.use("%s.%s(): uninterpreted function of the text" % (x.kind, which))
+                return VSeq(x.kind, "int", z3.Function("py_%s" % which, SeqI, SeqI)(x.t))
+            return f
+        for which in ("lower", "upper", "casefold", "swapcase", "title", "capitalize"):
+            M[("str", which)] = s_case(which)
+            M[("bytes", which)] = s_case(which)
+
         def s_splitlines(ex, a, kw):
             x = a[0]
             keep = a[1] if len(a) > 1 else kw.get("keepends")
